@@ -63,6 +63,7 @@ static CO_ERR COTSyncIdWrite(struct CO_OBJ_T *obj, struct CO_NODE_T *node, void 
 {
     const CO_OBJ_TYPE *uint32 = CO_TUNSIGNED32;
     CO_ERR result = CO_ERR_NONE;
+    CO_ERR err;
     CO_SYNC *sync;
     uint32_t nid;
     uint32_t oid;
@@ -92,8 +93,13 @@ static CO_ERR COTSyncIdWrite(struct CO_OBJ_T *obj, struct CO_NODE_T *node, void 
         /* SYNC producer activation */
         if (((nid & CO_SYNC_COBID_ON) != 0)) {
             sync->CobId = nid;
+            /* detect the resolution error of this activation, only */
+            err = node->Error;
+            node->Error = CO_ERR_NONE;
             COSyncProdActivate(sync);
-            if (node->Error == CO_ERR_SYNC_RES) {
+            if (node->Error == CO_ERR_NONE) {
+                node->Error = err;
+            } else if (node->Error == CO_ERR_SYNC_RES) {
                 /*
                  * Unable to start timer, return back
                  * the old COB-ID and report error
